@@ -15,7 +15,8 @@ TEXT = ("Thin claim: equality with the past state is a history property and is N
         "requested head passed `is known` and `status == Ready`; otherwise Err. T3 - documents, block map and the data "
         "index are cleared before parsing, the staged-changes guard holds (C15/G1) and an empty target set delegates to "
         "reload. T4 - get_value with a revision reads data only under `get_revisions().contains_key(rev)`, and "
-        "get_parent_revision answers from the tree entry alone.")
+        "get_parent_revision answers from the tree entry alone. T5 - the applier does not consume the `inserted` flag of "
+        "the tree insertion, so its outcome cannot depend on revisions already delivered by another block.")
 TRUSTED = ["rustc nightly MIR", "C02 (apply only when Ready)", "C15/G1"]
 
 
@@ -26,6 +27,7 @@ def run(facts, res):
     res.rule("T2", "requested heads are validated (known and Ready) before anything is applied")
     res.rule("T3", "time travel starts from a clean slate and delegates the empty target set to reload")
     res.rule("T4", "historical lookups are membership-checked")
+    _applier_total(facts, res, R)
     b = facts.body("melda::Melda::reload_until")
     if b is None:
         res.floor("T1", "reload_until", 0, 1)
@@ -194,6 +196,87 @@ def run(facts, res):
         res.instance("T4", "get_parent_revision answers from RevisionTree::get_parent only: %s" % ok, gp.loc())
         if not ok:
             res.violation("T4", "get_parent_revision|source", "get_parent_revision no longer reads the parent from the revision tree entry", gp.loc())
+
+
+def _applier_total(facts, res, R):
+    """T5: applying a block is idempotent - what the applier reports does not depend on whether the block's revisions
+    were already in the tree (reload_until enqueues a block's parents only when the apply reported success, and a
+    revision shared by two blocks is 'already there' for the second one)"""
+    from ..common import local_uses
+    res.rule("T5", "the applier's result does not depend on which revisions were already present")
+    ap = R.body("applier")
+    if ap is None:
+        res.floor("T5", "applier role", 0, 1)
+        return
+    n = 0
+    for mb in [ap] + facts.closures_of(ap.path):
+        for bi, t in mb.calls():
+            if t.callee is None or t.callee.target() not in ("revisiontree::RevisionTree::unvalidated_add", "revisiontree::RevisionTree::add"):
+                continue
+            n += 1
+            infl = _influences_outcome(mb, t.dest.local) if t.dest is not None and not t.dest.proj else None
+            res.instance("T5", "%s: the 'inserted' flag returned by %s does not influence the applier's result: %s" % (mb.path, t.callee.name, infl is None), mb.loc(t.line))
+            if infl is not None:
+                res.violation("T5", "applier|outcome-depends-on-already-present",
+                              "%s: the flag returned by %s (was the revision new?) decides the applier's result (%s): re-applying revisions that another block "
+                              "already delivered changes the outcome, and reload_until stops following parents when the apply does not report success" % (
+                                  mb.path, t.callee.name, infl), mb.loc(t.line))
+    res.floor("T5", "tree insertion sites in the applier", n, 1)
+
+
+def _influences_outcome(body, local):
+    """taint closure of `local` through data and control dependence inside `body`; returns a description when a tainted
+    switch decides whether an Err is returned / a tainted value is returned, else None"""
+    cfg = cfg_of(body)
+    tainted = {local}
+    tsw = set()
+    changed = True
+    while changed:
+        changed = False
+        for blk in body.blocks:
+            if blk.cleanup:
+                continue
+            t = blk.term
+            if t.kind == "switch" and t.discr.local() in tainted and blk.idx not in tsw:
+                tsw.add(blk.idx)
+                changed = True
+        ctl = set()
+        for sb in tsw:
+            for k in range(len(body.blocks[sb].term.switch_edges())):
+                e = cfg.edge_nodes.get((sb, k))
+                if e is None:
+                    continue
+                ctl |= {x.idx for x in body.blocks if not x.cleanup and cfg.dominates(e, x.idx)}
+        for blk in body.blocks:
+            if blk.cleanup:
+                continue
+            for st in blk.stmts:
+                if st.kind != "assign" or st.place is None:
+                    continue
+                src = any(o.place is not None and o.place.local in tainted for o in st.rv.operands()) or \
+                    (st.rv.place() is not None and st.rv.place().local in tainted)
+                if (src or blk.idx in ctl) and st.place.local not in tainted:
+                    if st.place.local == 0 and blk.idx in ctl and not src:
+                        continue
+                    tainted.add(st.place.local)
+                    changed = True
+            t = blk.term
+            if t.kind == "call" and t.dest is not None and t.dest.local not in tainted and \
+                    any(a.place is not None and a.place.local in tainted for a in t.args):
+                tainted.add(t.dest.local)
+                changed = True
+    ctl = set()
+    for sb in tsw:
+        for k in range(len(body.blocks[sb].term.switch_edges())):
+            e = cfg.edge_nodes.get((sb, k))
+            if e is not None:
+                ctl |= {x.idx for x in body.blocks if not x.cleanup and cfg.dominates(e, x.idx)}
+    for ob, st in assigns_of_return(body, "Err"):
+        if ob in ctl:
+            return "an Err return at line %s is control-dependent on it" % st.line
+    if 0 in tainted:
+        return "the returned value derives from it"
+    return None
 
 
 def thorough(res):
